@@ -647,3 +647,22 @@ func (c *Ctx) funcArgTargets() map[*ssa.Parameter][]*ssa.Function {
 	funcArgCache[c] = out
 	return out
 }
+
+type namedConst struct {
+	name string
+	val  int64
+}
+
+// constsOfType lists the integer constants declared with named type t, in name order.
+func constsOfType(c *Ctx, t *types.Named) []namedConst {
+	var out []namedConst
+	sc := t.Obj().Pkg().Scope()
+	for _, name := range sc.Names() {
+		if k, ok := sc.Lookup(name).(*types.Const); ok && types.Identical(k.Type(), t) {
+			if v, exact := constant.Int64Val(k.Val()); exact {
+				out = append(out, namedConst{name, v})
+			}
+		}
+	}
+	return out
+}
